@@ -23,6 +23,14 @@ package transports
 //@ func TransportCtor.UpgradesTo()
 //@   modifies nothing
 //@   ensures result != nil && fresh(result)
+// which polling flavour a handshake gets: JSONP exactly when the request carries a j parameter (whatever its value - the
+// client posts form-encoded bodies from then on), plain polling otherwise
+//@ func (*PollingBuilder).New(ctx)
+//@   props C02, C16, C01
+//@   requires ctx != nil && ctx.query != nil
+//@   modifies *
+//@   ensures [C02.builder.jsonp,C16.builder.jsonp,C01.builder.jsonp] old(bagHas(ctx.query, "j")) ==> calls(NewJSONP) == 1 && calls(NewPolling) == 0
+//@   ensures [C02.builder.plain,C16.builder.plain,C01.builder.plain] !old(bagHas(ctx.query, "j")) ==> calls(NewPolling) == 1 && calls(NewJSONP) == 0
 //@ func (*PollingBuilder).UpgradesTo()
 //@   props C06
 //@   modifies nothing
@@ -218,7 +226,7 @@ package transports
 //@   callsite Transport.OnData#1
 //@     assert [C10.declared] ctx.request.ContentLength <= p.Transport.$maxbuf
 //@     assert [C10.bounded]  ctx.request.Body == nil || ctx.request.ContentLength >= 0 || (calls(http.MaxBytesReader) == 1 && arg(http.MaxBytesReader, 1, n) == p.Transport.$maxbuf && ret(io.ReaderFrom.ReadFrom, 1, 1) == nil)
-//@     assert [C11.stilloutstanding] p.dataCtx.v == ctx   // the data request stays outstanding while its packets are processed: an overlapping one is refused
+//@     assert [C11.stilloutstanding,C02.serialised] p.dataCtx.v == ctx   // the data request stays outstanding while its packets are processed: an overlapping one is refused
 //@     assert [C02.kind] isBinary ==> typeis($data, *types.BytesBuffer)
 //@     assert [C02.kindtext] !isBinary ==> typeis($data, *types.StringBuffer)
 
@@ -227,10 +235,16 @@ package transports
 
 // the reader: a frame is handed on only when it was read completely, as a buffer of the frame's kind; each frame once
 //@ func (*websocket).message()
-//@   props C02, C09
+//@   props C02, C09, C03
 //@   requires wsOK(w) && !w.socket.Conn.$readFailed
 //@   modifies *
 //@   loop 1 invariant wsOK(w) && !w.socket.Conn.$readFailed   // the loop never reads again from a connection whose NextReader failed
+// a failed read: every close error of the peer (whatever its status code) and a closed connection end the transport with
+// "close"; anything else is reported as an error
+//@   callsite types.EventEmitter.Emit#1
+//@     assert [C03.ws.peerclose] $evt == "close" && (ret(ws.IsUnexpectedCloseError, 1) || ret(errors.Is, 1)) && arg(ws.IsUnexpectedCloseError, 1, err) == ret((*ws.Conn).NextReader, 1, 2) && len(arg(ws.IsUnexpectedCloseError, 1, expectedCodes)) == 0
+//@   callsite types.EventEmitter.Emit#2
+//@     assert [C03.ws.readerror] $evt == "error" && !ret(ws.IsUnexpectedCloseError, 1) && !ret(errors.Is, 1)
 //@   callsite (*websocket).onMessage#1
 //@     assert [C02.ws.binary]   ret((*ws.Conn).NextReader, 1, 0) == ws.BinaryMessage && typeis($data, *types.BytesBuffer) && $data == ret(types.NewBytesBuffer, 1)
 //@     assert [C02.ws.complete] ret(io.ReaderFrom.ReadFrom, 1, 1) == nil && arg(io.ReaderFrom.ReadFrom, 1, this) == $data && arg(io.ReaderFrom.ReadFrom, 1, r) == ret((*ws.Conn).NextReader, 1, 1)
@@ -241,7 +255,7 @@ package transports
 //@   props C02
 //@   requires w != nil && w.Transport != nil
 //@   modifies nothing
-//@   ensures [C02.ws.deliver] calls(Transport.OnData) == 1 && arg(Transport.OnData, 1, data) == data
+//@   ensures [C02.ws.deliver,C08.ws.everyframe,C03.ws.everyframe] calls(Transport.OnData) == 1 && arg(Transport.OnData, 1, data) == data
 
 //@ func (*websocket).Send(packets)
 //@   props C01
@@ -264,6 +278,10 @@ package transports
 //@   loop 1 invariant calls((*ws.Conn).WritePreparedMessage) + calls((*websocket).write) == $i
 //@   ensures [C01.ws.all]   calls(types.EventEmitter.Emit) == 2 ==> calls((*ws.Conn).WritePreparedMessage) + calls((*websocket).write) == len(packets)
 //@   ensures [C01.ws.ready] emitted(w.Transport, "drain") == 1 && emitted(w.Transport, "ready") == 1 && ncalls(Transport.SetWritable, writable) == 1
+// drain is announced while the transport is still busy: the session runs the batch's send callbacks from that event, and a
+// callback that sends again must queue behind the rest of its batch (callbacks run in the order of their sends)
+//@   callsite Transport.SetWritable
+//@     assert [C18.ws.drainfirst,C01.ws.drainfirst] $writable && emitted(w.Transport, "drain") == 1 && emitted(w.Transport, "ready") == 0
 //@   callsite (*websocket).write#1
 //@     assert [C01.ws.encoded] $data == ret(parser.Parser.EncodePacket, 1, 0) && ret(parser.Parser.EncodePacket, 1, 1) == nil && arg(parser.Parser.EncodePacket, 1, packet) == packet
 //@   callsite ws.NewPreparedMessage#1
@@ -313,7 +331,7 @@ package transports
 //@   props C02
 //@   requires w != nil && w.Transport != nil
 //@   modifies nothing
-//@   ensures [C02.wt.deliver] calls(Transport.OnData) == 1 && arg(Transport.OnData, 1, data) == data
+//@   ensures [C02.wt.deliver,C08.wt.everyframe,C03.wt.everyframe] calls(Transport.OnData) == 1 && arg(Transport.OnData, 1, data) == data
 
 // the per-message writer: one NextWriter of the payload's kind, the payload copied into it, the writer closed (which is
 // what emits the frame, C13); a failure at any step is reported on the session's connection and ends the write
@@ -344,6 +362,10 @@ package transports
 //@   loop 1 invariant calls((*webtransport.Conn).WritePreparedMessage) + calls((*webTransport).write) == $i
 //@   ensures [C01.wt.all]   calls(types.EventEmitter.Emit) == 2 ==> calls((*webtransport.Conn).WritePreparedMessage) + calls((*webTransport).write) == len(packets)
 //@   ensures [C01.wt.ready] emitted(w.Transport, "drain") == 1 && emitted(w.Transport, "ready") == 1 && ncalls(Transport.SetWritable, writable) == 1
+// drain is announced while the transport is still busy: the session runs the batch's send callbacks from that event, and a
+// callback that sends again must queue behind the rest of its batch (callbacks run in the order of their sends)
+//@   callsite Transport.SetWritable
+//@     assert [C18.wt.drainfirst,C01.wt.drainfirst] $writable && emitted(w.Transport, "drain") == 1 && emitted(w.Transport, "ready") == 0
 //@   callsite (*webTransport).write#1
 //@     assert [C01.wt.encoded] $data == ret(parser.Parser.EncodePacket, 1, 0) && ret(parser.Parser.EncodePacket, 1, 1) == nil && arg(parser.Parser.EncodePacket, 1, packet) == packet
 //@   callsite webtransport.NewPreparedMessage#1
